@@ -8,7 +8,7 @@
 (* words, complete snapshot -- is compared with what the real code did.     *)
 (* Mismatches are DRIFT between model and code (printed as <<"X", ...>>,    *)
 (* reported as a NOTE, never an alarm); calls the model does not cover      *)
-(* (non-finite arguments, fan, sleep, comments, ...) are skipped.           *)
+(* (non-finite arguments, interpolated paths, user hooks) are skipped.      *)
 (* Only traces recorded with decimal_places = 0 are compared (the model     *)
 (* lives on the integer grid with unit 1).                                   *)
 (***************************************************************************)
@@ -29,7 +29,8 @@ Use(r) == [skip |-> FALSE, rep |-> r.rep, lines |-> r.lines, out |-> r.out, hook
 
 Predict(e) ==
   LET a == e.a  c == e.call IN
-  IF ~(PlainAx(a) /\ Plain(a.F) /\ Plain(a.S) /\ Plain(a.E) /\ Plain(a.R) /\ Plain(a.val) /\ Plain(a.val2)) \/ a.haspt THEN Skip
+  IF ~(PlainAx(a) /\ Plain(a.F) /\ Plain(a.S) /\ Plain(a.E) /\ Plain(a.R) /\ Plain(a.val) /\ Plain(a.val2)
+       /\ Plain(a.lo) /\ Plain(a.hi) /\ (\A i \in 1..3 : Plain(a.lo3[i]) /\ Plain(a.hi3[i]))) \/ a.haspt THEN Skip
   ELSE CASE c \in {"move", "rapid"} /\ Absent(a.R) -> Use(DoMove(prev, c = "move", a.ax, a.F, a.S, a.E))
     [] c \in {"move_absolute", "rapid_absolute"} /\ Absent(a.R) -> Use(DoBypass(prev, c = "move_absolute", a.ax, a.F, a.S, a.E))
     [] c = "set_axis" /\ Absent(a.F) /\ Absent(a.S) -> Use(DoSetAxis(prev, a.ax, a.E))
@@ -55,11 +56,26 @@ Predict(e) ==
     [] c = "set_bed_temperature" /\ a.val.k = "n" -> Use(DoSetTemp(prev, "bed", a.val.v))
     [] c = "set_hotend_temperature" /\ a.val.k = "n" -> Use(DoSetTemp(prev, "hotend", a.val.v))
     [] c = "set_chamber_temperature" /\ a.val.k = "n" -> Use(DoSetTemp(prev, "chamber", a.val.v))
+    [] c \in {"set_plane", "set_feed_mode", "set_extrusion_mode", "set_length_units"} -> Use(DoModal(prev, c, a.mode))
+    [] c \in {"set_time_units", "set_temperature_units", "set_direction"} -> Use(DoStateOnly(prev, c, a.mode))
+    [] c = "set_resolution" /\ a.val.k = "n" -> Use(DoSetResolution(prev, a.val.v))
+    [] c = "sleep" /\ a.val.k = "n" -> Use(DoSleep(prev, a.val.v))
+    [] c = "set_fan_speed" /\ a.val.k = "n" ->
+         Use(DoFan(prev, a.val.v, IF a.val2.k = "n" THEN a.val2.v ELSE 0, 255 * Traces[tid].meta.U))
+    [] c = "query" -> Use(DoQuery(prev, a.mode))
+    [] c = "comment" -> Use(DoComment(prev))
+    [] c = "set_bounds" /\ a.name = "axes" /\ (\A i \in 1..3 : a.lo3[i].k = "n" /\ a.hi3[i].k = "n") ->
+         Use(DoSetBoundsAxes(prev, <<a.lo3[1].v, a.lo3[2].v, a.lo3[3].v>>, <<a.hi3[1].v, a.hi3[2].v, a.hi3[3].v>>))
+    [] c = "set_bounds" /\ a.name # "axes" /\ a.lo.k = "n" /\ a.hi.k = "n" -> Use(DoSetBoundsScalar(prev, a.name, a.lo.v, a.hi.v))
+    [] c \in {"add_probe_hook", "remove_probe_hook"} -> Use(Ok(prev, <<>>))
     [] OTHER -> Skip
 
 \* halt(): the recorded R word is emitted as R, the model writes S; compare words up to that letter
 WordSet(ln) == {<<IF ln.ws[i].l = "R" THEN "S" ELSE ln.ws[i].l, ln.ws[i].v>> : i \in DOMAIN ln.ws}
 SameLines(a, b) == Len(a) = Len(b) /\ \A i \in DOMAIN a : WordSet(a[i]) = WordSet(b[i])
+
+\* a resolution the model does not track (converted by a change of length units) is taken from the recording
+Adopt(mrep, erep) == IF mrep.res.k = "scaled" THEN [mrep EXCEPT !.res = erep.res] ELSE mrep
 
 Init0 ==
   /\ tid \in 1..Len(Traces) /\ l = 1 /\ prev = Traces[tid].init /\ cstack = <<>> /\ hk = FALSE /\ nchk = 0
@@ -75,7 +91,7 @@ StepT ==
               ELSE /\ nchk' = nchk + 1
                    /\ IF m.out # e.out THEN PrintT(<<"X", tid, l, "outcome", e.call>>)
                       ELSE IF ~SameLines(m.lines, e.lines) THEN PrintT(<<"X", tid, l, "lines", e.call>>)
-                      ELSE IF m.rep # e.rep THEN PrintT(<<"X", tid, l, "state", e.call>>)
+                      ELSE IF Adopt(m.rep, e.rep) # e.rep THEN PrintT(<<"X", tid, l, "state", e.call>>)
                       ELSE IF Len(m.hooks) # Len(e.hooks) THEN PrintT(<<"X", tid, l, "hooks", e.call>>)
                       ELSE TRUE
         /\ prev' = e.rep
